@@ -113,6 +113,7 @@ func (g *sgen) genNode(depth int, inChoice bool) map[string]any {
 		n := map[string]any{"k": "list", "n": g.name("l")}
 		g.cfgStatus(n, true)
 		keyLeaf := map[string]any{"k": "leaf", "n": g.name("k"), "type": g.leafType(true)}
+		g.cfgStatus(keyLeaf, true) // the compiler does not insist that a key has the config of its list
 		kids := []any{keyLeaf}
 		kids = append(kids, g.genKids(depth+1, false)...)
 		n["keys"] = []any{keyLeaf["n"]}
